@@ -144,6 +144,28 @@ fn fail(sink: &mut Sink, signature: String, what: String, req: &str) {
     }
 }
 
+/// The `custom` family (two trees that differ at ONE place, strings `l` / `r` there): the supplied comparison
+/// decides an attribute value, a text node, PI data, the value of an attribute node; `==` decides comment data.
+pub fn check_custom(sink: &mut Sink, place: &str, cmp: &str, l: &str, r: &str, got: Option<bool>, want: bool, req: &str) {
+    let got = match got {
+        None => return, // reported by check_binary
+        Some(g) => g,
+    };
+    if got == want {
+        return;
+    }
+    let (signature, rule) = if place == "comment" {
+        ("C13:comment-data-not-compared-with-eq".to_string(), "==")
+    } else {
+        (format!("C13:custom-comparison-not-applied:{}", place), "the supplied comparison")
+    };
+    let what = format!(
+        "advanced_deep_equal with the {} comparison on two trees differing only at {} ({:?} of {} bytes / {:?} of {} bytes) returned {}; {} says {}",
+        cmp, place, l, l.len(), r, r.len(), got, rule, want
+    );
+    fail(sink, signature, what, req);
+}
+
 /// What the property says the operation must return; `None` = the property is silent.
 pub fn expected(xot: &Xot, vocab: &Vocab, op: &Op, a: Node, b: Node) -> Option<bool> {
     let (ca, cb) = (canon_of(xot, a), canon_of(xot, b));
